@@ -391,10 +391,10 @@ class PureEval:
             if isinstance(base, (dict, tuple, list, str)) and hasattr(base, node.func.attr):
                 r = getattr(base, node.func.attr)(*[self.ev(a, env) for a in node.args])
                 return tuple(r) if node.func.attr in ("items", "keys", "values") else r
-        if isinstance(node, ast.Call):
+        if isinstance(node, ast.Call) and not any(k.arg is None for k in node.keywords) and not any(isinstance(a, ast.Starred) for a in node.args):
             f = self.ev(node.func, env)
             if callable(f):
-                return f(*[self.ev(a, env) for a in node.args])
+                return f(*[self.ev(a, env) for a in node.args], **{k.arg: self.ev(k.value, env) for k in node.keywords})
         raise FevalError(f"unsupported {type(node).__name__} in a pure function")
 
 
@@ -496,7 +496,29 @@ class _Cnt(Exception):
 
 
 class Obj(dict):
-    """An instance in ObjEval: attribute name -> value."""
+    """An instance in ObjEval: attribute name -> value.  Truthiness is that of an instance (True unless the class under evaluation defines
+    __bool__ / __len__, which the running evaluator folds), not that of the dict that models it."""
+    _truth_hook = None
+    _eq_hook = None
+    _hash_hook = None
+
+    def __bool__(self):
+        h = Obj._truth_hook
+        return True if h is None else h(self)
+
+    def __eq__(self, other):
+        h = Obj._eq_hook
+        return dict.__eq__(self, other) if h is None else h(self, other)
+
+    def __ne__(self, other):
+        r = self.__eq__(other)
+        return r if r is NotImplemented else not r
+
+    def __hash__(self):
+        h = Obj._hash_hook
+        if h is None:
+            raise TypeError("unhashable instance model")
+        return h(self)
 
 
 class ObjEval(BlockEval):
@@ -516,6 +538,112 @@ class ObjEval(BlockEval):
         self.methods = methods or {}
         self._yields = []
         self.steps = 0
+        self.lib["len"] = self._len
+        self.lib["isinstance"] = self._isinstance
+        self.lib.setdefault("replace", self._replace)
+        self.class_methods = {}
+        self.class_fields = {}
+        self.class_frozen = {}
+        self.class_props = {}
+        self.class_all_fields = {}
+
+    def _eq(self, a, b):
+        ms = self._methods_of(a)
+        if "__eq__" in ms and a.get("__cls__") in self.class_methods:
+            r = self.call_method(ms["__eq__"], a, b)
+            return False if r is NotImplemented else bool(r)
+        if not isinstance(b, Obj) or a.get("__cls__") != b.get("__cls__"):
+            return False
+        fs = self.class_fields.get(a.get("__cls__"))
+        if fs is None:
+            return dict.__eq__(a, b)
+        return all(a.get(f) == b.get(f) for f in fs)
+
+    def _hash(self, a):
+        ms = self._methods_of(a)
+        c = a.get("__cls__")
+        if "__hash__" in ms and c in self.class_methods:
+            return self.call_method(ms["__hash__"], a)
+        if not self.class_frozen.get(c):
+            raise TypeError(f"unhashable type: '{c}'")
+        return hash((c, tuple(a.get(f) for f in self.class_fields[c])))
+
+    def register_class(self, ci):
+        """Make the data class `ci` (sa.model.ClassInfo) constructible by name: instances are Obj with `__cls__`, defaults and default
+        factories are folded, __post_init__ runs, methods dispatch by the instance's class, isinstance() knows the name."""
+        names = [fl.name for fl in ci.fields]
+        self.class_methods[ci.name] = {m.name: m.node for m in ci.methods.values() if isinstance(m.node, ast.FunctionDef)}
+        self.class_fields[ci.name] = [fl.name for fl in ci.fields if getattr(fl, "flags", {}).get("compare", True) is not False]
+        self.class_all_fields[ci.name] = list(names)
+        self.class_props[ci.name] = {m.name: m.node for m in ci.methods.values() if isinstance(m.node, ast.FunctionDef) and "property" in getattr(m, "decorators", ())}
+        self.class_frozen[ci.name] = bool(ci.is_dataclass and ci.dc_args.get("frozen") is True and ci.dc_args.get("eq") is not False)
+
+        def make(*a, **kw):
+            if len(a) > len(names):
+                raise FevalError(f"too many positional arguments for {ci.name}")
+            kw = dict(zip(names, a), **kw)
+            if set(kw) - set(names):
+                raise FevalError(f"unexpected keyword for {ci.name}")
+            obj = Obj({"__cls__": ci.name})
+            for fl in ci.fields:
+                if fl.name in kw:
+                    obj[fl.name] = kw[fl.name]
+                elif fl.default_factory is not None:
+                    obj[fl.name] = self.ev(ast.Call(func=fl.default_factory, args=[], keywords=[]), {})
+                elif fl.default is not None:
+                    obj[fl.name] = self.ev(fl.default, {})
+                else:
+                    raise FevalError(f"{ci.name}() without {fl.name}")
+            post = self.class_methods[ci.name].get("__post_init__")
+            if post is not None:
+                self.call_method(post, obj)
+            return obj
+        make.cls_name = ci.name
+        self.lib[ci.name] = make
+        return make
+
+    def _replace(self, obj, **changes):
+        """dataclasses.replace: a new instance of the same class through its constructor."""
+        if not isinstance(obj, Obj) or not callable(self.lib.get(obj.get("__cls__"))) or not hasattr(self.lib[obj["__cls__"]], "cls_name"):
+            raise FevalError("replace() of something that is not an instance of a registered data class")
+        kw = {k: v for k, v in obj.items() if k != "__cls__" and k in self.class_all_fields.get(obj["__cls__"], ())}
+        kw.update(changes)
+        return self.lib[obj["__cls__"]](**kw)
+
+    def _methods_of(self, x):
+        if isinstance(x, Obj) and x.get("__cls__") in self.class_methods:
+            return self.class_methods[x["__cls__"]]
+        return self.methods
+
+    def _isinstance(self, x, cls):
+        cs = cls if isinstance(cls, tuple) else (cls,)
+        for c in cs:
+            name = getattr(c, "cls_name", None)
+            if name is not None:
+                if isinstance(x, Obj) and x.get("__cls__") == name:
+                    return True
+            elif isinstance(c, type):
+                if isinstance(x, c) and not (isinstance(x, Obj) and c in (dict, object)):
+                    return True
+            else:
+                raise FevalError("isinstance() against something that is not a class")
+        return False
+
+    def _len(self, x):
+        if isinstance(x, Obj):
+            ms = self._methods_of(x)
+            if "__len__" in ms:
+                return self.call_method(ms["__len__"], x)
+            raise FevalError("len() of an instance without __len__")
+        return len(x)
+
+    def _truth(self, x):
+        ms = self._methods_of(x)
+        if "__bool__" in ms:
+            return bool(self.call_method(ms["__bool__"], x))
+        if "__len__" in ms:
+            return self.call_method(ms["__len__"], x) != 0
+        return True
 
     def call_method(self, fn_node, *args, **kwargs):
         a = fn_node.args
@@ -535,6 +663,8 @@ class ObjEval(BlockEval):
             raise FevalError("recursion too deep")
         if own:
             self._yields.append([])
+        prev_hook = (Obj._truth_hook, Obj._eq_hook, Obj._hash_hook)
+        Obj._truth_hook, Obj._eq_hook, Obj._hash_hook = self._truth, self._eq, self._hash
         try:
             try:
                 self.exec(fn_node.body, env)
@@ -545,6 +675,7 @@ class ObjEval(BlockEval):
                 return tuple(self._yields[-1])
             return r
         finally:
+            Obj._truth_hook, Obj._eq_hook, Obj._hash_hook = prev_hook
             self.depth -= 1
             if own:
                 self._yields.pop()
@@ -565,6 +696,9 @@ class ObjEval(BlockEval):
             base[target.attr] = value
         elif isinstance(target, ast.Subscript):
             base = self.ev(target.value, env)
+            if isinstance(base, Obj) and "__setitem__" in self._methods_of(base):
+                self.call_method(self._methods_of(base)["__setitem__"], base, self.ev(target.slice, env), value)
+                return
             if not isinstance(base, (dict, list)) or isinstance(base, Obj):
                 raise FevalError("subscript store on an unsupported object")
             base[self.ev(target.slice, env)] = value
@@ -714,6 +848,8 @@ class ObjEval(BlockEval):
         if isinstance(node, ast.YieldFrom):
             self._yields[-1].extend(self.ev(node.value, env))
             return None
+        if isinstance(node, ast.Set):
+            return {self.ev(e, env) for e in node.elts}  # (a real set: this evaluator has reference semantics for containers)
         if isinstance(node, ast.NamedExpr):
             v = self.ev(node.value, env)
             env[node.target.id] = v
@@ -729,7 +865,7 @@ class ObjEval(BlockEval):
         if isinstance(node, ast.Call) and isinstance(node.func, ast.Name):
             target = self.resolve(node.func.id) if node.func.id not in env else None
             star = [k for k in node.keywords if k.arg is None]
-            if target is not None or star:
+            if target is not None or star or any(isinstance(a, ast.Starred) for a in node.args):
                 args = []
                 for a in node.args:
                     if isinstance(a, ast.Starred):
@@ -759,6 +895,8 @@ class ObjEval(BlockEval):
             base = self.ev(node.value, env)
             if isinstance(base, Obj) and node.attr not in base and node.attr in getattr(self, "properties", {}):
                 return self.call_method(self.properties[node.attr], base)
+            if isinstance(base, Obj) and node.attr not in base and node.attr in self.class_props.get(base.get("__cls__"), {}):
+                return self.call_method(self.class_props[base["__cls__"]][node.attr], base)
             if isinstance(base, Obj) and node.attr in base:
                 return base[node.attr]
             if isinstance(base, dict) and not isinstance(base, Obj) and node.attr in base:
@@ -766,6 +904,8 @@ class ObjEval(BlockEval):
             if node.attr in ("real", "imag") and isinstance(base, (complex, float, int)):
                 return getattr(base, node.attr)
             raise FevalError(f"attribute {node.attr}")
+        if isinstance(node, ast.Subscript) and isinstance(node.value, ast.Name) and node.value.id not in env and hasattr(self.lib.get(node.value.id), "cls_name"):
+            return self.lib[node.value.id]  # Table[str]: the class itself
         if isinstance(node, ast.DictComp):
             out = {}
 
@@ -787,8 +927,8 @@ class ObjEval(BlockEval):
             args = [self.ev(a, env) for a in node.args]
             kwargs = {k.arg: self.ev(k.value, env) for k in node.keywords if k.arg}
             if isinstance(base, Obj):
-                if m in self.methods:
-                    return self.call_method(self.methods[m], base, *args, **kwargs)
+                if m in self._methods_of(base):
+                    return self.call_method(self._methods_of(base)[m], base, *args, **kwargs)
                 if m in base and callable(base[m]):
                     return base[m](*args, **kwargs)
                 raise FevalError(f"method {m}")
